@@ -191,97 +191,116 @@ func init() {
 	Checks["C05"] = func(c *Ctx) {
 		n5 := pick(c, 6, 8)
 		permLimit := pick(c, 4, 4)
-		c.Cov.Rule = "states = all states of the forward BFS with N<=Nmax (de-duplicated on concrete dumps); for every state and every non-empty set S of live leaves, every encoding from the closed family {direct proof in every permutation of S (|S|<=PermLimit, else sorted/reversed/rotated) with 0..2 trailing unused proof hashes, AddProof of every two-part split of S, GetProofSubset of the all-live proof} that Verify accepts is applied with k in {0,1,2} additions to fresh replays of the state's history on Stump, Pollard, full MapPollard (TR 0, 63), partial MapPollard with the leaves cached beforehand (TR 0, 63), partial MapPollard after Verify(remember) of the same encoding (TR 0, 3) and NewMapPollardFromRoots; roots and leaf count must equal the reference for alive - S plus the additions; non-trivial = accepted non-canonical encodings applied"
+		c.Cov.Rule = "states = all states of the forward BFS with N<=Nmax (de-duplicated on concrete dumps); for every state and every non-empty set S of live leaves, every encoding from the closed family {direct proof in every permutation of S (|S|<=PermLimit, else sorted/reversed/rotated) with 0..2 trailing unused proof hashes, AddProof of every two-part split of S, GetProofSubset of the all-live proof} that Verify accepts is applied with k in {0,1,2} additions to fresh replays of the state's history on Stump, Pollard, full MapPollard (TR 0, 63), partial MapPollard with the leaves cached beforehand (TR 0, 63), partial MapPollard after Verify(remember) of the same encoding (TR 0, 3) and NewMapPollardFromRoots; roots and leaf count must equal the reference for alive - S plus the additions; a second pass takes the states whose history contains one serialize/restore of the forest (so that restored forests that evolved further are covered) with the direct encodings; non-trivial = accepted non-canonical encodings applied"
 		c.Cov.Bound["Nmax"] = n5
 		c.Cov.Bound["PermLimit"] = permLimit
 		c.Cov.Bound["instances"] = len(encInsts)
-		collect := &HistFamily{Nmax: n5, Insts: []InstCfg{{Kind: "pollard"}, {Kind: "map", Full: true, TR: 0}, {Kind: "map", Full: false, TR: 0, Mode: "all"}}, Or: HistOracle{Prop: "C05"}}
-		type task struct {
-			hist []Op
-			s    ref.State
-			set  []int
-		}
-		var tasks []task
-		sub := NewCov() // the collecting BFS's counters are not this check's transitions
-		cc := *c
-		cc.Cov = sub
-		BFSCollect(&cc, collect, 0, func(n *Node) {
-			md := n.Model.(*histModel)
-			for _, set := range subsets(md.s.Live(), false) {
-				tasks = append(tasks, task{n.Hist, md.s, set})
-			}
-		})
-		c.Cov.AddStates(sub.States)
-		if !sub.Exhaustive {
-			c.Cov.NotExhaustive(sub.Capped)
-		}
 		var accepted, rejected, applied int64
 		var sampled int32
-		hf := &HistFamily{PermLimit: permLimit}
-		ok := parallelFor(c, len(tasks), func(i int) {
-			tk := tasks[i]
-			type encv struct {
+		var ntasks int
+		pass := func(nmax, rtBud int, instIdx []int, assembled bool) {
+			collect := &HistFamily{Nmax: nmax, RTBud: rtBud, Insts: []InstCfg{{Kind: "pollard"}, {Kind: "map", Full: true, TR: 0}, {Kind: "map", Full: false, TR: 0, Mode: "all"}}, Or: HistOracle{Prop: "C05"}}
+			type task struct {
+				hist []Op
+				s    ref.State
 				set  []int
-				enc  string
-				junk int
 			}
-			var encs []encv
-			for _, order := range hf.requestOrders(tk.set) {
-				for junk := 0; junk <= 2; junk++ {
-					encs = append(encs, encv{order, "direct", junk})
+			var tasks []task
+			sub := NewCov() // the collecting BFS's counters are not this check's transitions
+			cc := *c
+			cc.Cov = sub
+			BFSCollect(&cc, collect, 0, func(n *Node) {
+				md := n.Model.(*histModel)
+				if rtBud > 0 && !md.hasRT {
+					return // covered by the pass without restore
 				}
-			}
-			if len(tk.set) >= 2 {
-				for mask := 1; mask < (1<<uint(len(tk.set)))-1; mask++ {
-					encs = append(encs, encv{tk.set, fmt.Sprintf("addproof:%d", mask), 0})
+				for _, set := range subsets(md.s.Live(), false) {
+					tasks = append(tasks, task{n.Hist, md.s, set})
 				}
+			})
+			c.Cov.AddStates(sub.States)
+			if !sub.Exhaustive {
+				c.Cov.NotExhaustive(sub.Capped)
 			}
-			encs = append(encs, encv{tk.set, "subset", 0})
-			if len(tk.set) >= 2 {
-				rev := make([]int, len(tk.set))
-				for i, x := range tk.set {
-					rev[len(tk.set)-1-i] = x
+			ntasks += len(tasks)
+			hf := &HistFamily{PermLimit: permLimit}
+			ok := parallelFor(c, len(tasks), func(i int) {
+				tk := tasks[i]
+				type encv struct {
+					set  []int
+					enc  string
+					junk int
 				}
-				encs = append(encs, encv{rev, "subset", 0})
-			}
-			for _, e := range encs {
-				acc := false
-				for k := 0; k <= 2; k++ {
-					for ii := range encInsts {
-						ec := encCase{Hist: tk.hist, Set: e.set, Enc: e.enc, Junk: e.junk, Adds: k, Inst: ii}
-						a, vs := evalEncoding(ec)
-						if !a {
+				var encs []encv
+				for _, order := range hf.requestOrders(tk.set) {
+					for junk := 0; junk <= 2; junk++ {
+						encs = append(encs, encv{order, "direct", junk})
+					}
+				}
+				if assembled {
+					if len(tk.set) >= 2 {
+						for mask := 1; mask < (1<<uint(len(tk.set)))-1; mask++ {
+							encs = append(encs, encv{tk.set, fmt.Sprintf("addproof:%d", mask), 0})
+						}
+					}
+					encs = append(encs, encv{tk.set, "subset", 0})
+					if len(tk.set) >= 2 {
+						rev := make([]int, len(tk.set))
+						for i, x := range tk.set {
+							rev[len(tk.set)-1-i] = x
+						}
+						encs = append(encs, encv{rev, "subset", 0})
+					}
+				}
+				for _, e := range encs {
+					acc := false
+					for k := 0; k <= 2; k++ {
+						for _, ii := range instIdx {
+							ec := encCase{Hist: tk.hist, Set: e.set, Enc: e.enc, Junk: e.junk, Adds: k, Inst: ii}
+							a, vs := evalEncoding(ec)
+							if !a {
+								break
+							}
+							acc = true
+							atomic.AddInt64(&applied, 1)
+							c.Col.Add(vs...)
+						}
+						if !acc {
 							break
 						}
-						acc = true
-						atomic.AddInt64(&applied, 1)
-						c.Col.Add(vs...)
 					}
-					if !acc {
-						break
-					}
-				}
-				if acc {
-					atomic.AddInt64(&accepted, 1)
-					canonical := e.enc == "direct" && e.junk == 0
-					if !canonical {
-						c.Cov.Distinct(fmt.Sprintf("%s|%v|%s|%d", histStr(tk.hist), e.set, e.enc, e.junk))
-						if atomic.AddInt32(&sampled, 1) <= 4 {
-							c.Cov.Sample(map[string]any{"history": histStr(tk.hist), "delete": e.set, "encoding": e.enc, "junk": e.junk})
+					if acc {
+						atomic.AddInt64(&accepted, 1)
+						canonical := e.enc == "direct" && e.junk == 0
+						if !canonical {
+							c.Cov.Distinct(fmt.Sprintf("%s|%v|%s|%d", histStr(tk.hist), e.set, e.enc, e.junk))
+							if atomic.AddInt32(&sampled, 1) <= 4 {
+								c.Cov.Sample(map[string]any{"history": histStr(tk.hist), "delete": e.set, "encoding": e.enc, "junk": e.junk})
+							}
 						}
+					} else {
+						atomic.AddInt64(&rejected, 1)
 					}
-				} else {
-					atomic.AddInt64(&rejected, 1)
 				}
+			})
+			if !ok {
+				c.Cov.NotExhaustive("deadline reached during encoding enumeration")
 			}
-		})
-		if !ok {
-			c.Cov.NotExhaustive("deadline reached during encoding enumeration")
 		}
+		all := make([]int, len(encInsts))
+		for i := range all {
+			all[i] = i
+		}
+		pass(n5, 0, all, true)
+		// histories that contain one serialize/restore of the forest (Pollard, MapPollard), so
+		// that an accepted block is also applied to restored forests that evolved further
+		nrt := pick(c, 4, 5)
+		c.Cov.Bound["restore_pass.Nmax"] = nrt
+		pass(nrt, 1, []int{1, 2, 4, 6}, false)
 		c.Cov.AddTransitions(applied)
 		c.Cov.AddEvals(applied)
 		c.Cov.SetExtra("accepted_encodings", accepted)
 		c.Cov.SetExtra("encodings_not_accepted_by_Verify_or_not_assembled", rejected)
-		c.Cov.SetExtra("state_leafset_pairs", len(tasks))
+		c.Cov.SetExtra("state_leafset_pairs", ntasks)
 	}
 }
